@@ -6,6 +6,10 @@ import (
 	"encoding/hex"
 	"encoding/json"
 	"fmt"
+	aeth "github.com/Oneledger/protocol/action/eth"
+	"github.com/ethereum/go-ethereum/common"
+	"github.com/ethereum/go-ethereum/core/types"
+	"github.com/ethereum/go-ethereum/rlp"
 	"io/ioutil"
 	"math/big"
 	"os"
@@ -230,16 +234,23 @@ func NoCrashInputs(seed uint64, fuzz int) (*World, []HostileInput) {
 	// fork family: OLVM is enabled from block 1, genesis validators stake enough to survive it
 	p.Frankenstein = 1
 	p.GenesisStake = []int64{600000, 500000, 700000, 500001, 500002, 500003}
-	w := NewWorld(p)
+	// Ethereum lock/redeem handlers are reachable (chain-driver option, two witnesses) and two
+	// Ethereum-keyed accounts are funded, so that correctly signed OLVM transactions execute
+	p.Witnesses = 2
+	p.ETH = EthOption(100000, 100000)
+	ow := NewOlvmWorld(p, 2)
+	w := ow.World
 	r := rng.New(seed*7 + 1)
 	g := NewGen(w, r)
 	g.Height = 6
 	in := g.crashTable()
+	in = append(in, g.ethCrashTable()...)
+	in = append(in, olvmCrashTable(ow, r)...)
 	// seed some objects so that kinds referring to proposals / domains / requests have targets
 	for i := 0; i < 40; i++ {
 		g.Next(AllWeights())
 	}
-	for len(in) < len(g.crashTable())+fuzz {
+	for n0 := len(in); len(in) < n0+fuzz; {
 		base := g.Next(AllWeights())
 		if h, ok := g.HostileFrom(base); ok {
 			in = append(in, h)
@@ -418,4 +429,125 @@ func RunNoCrash(self string, seed uint64, seeds, fuzz, parallel int) (*Result, e
 		}
 	}
 	return res, nil
+}
+
+// ethCrashTable: Ethereum lock / redeem submissions whose embedded external transaction is aimed
+// at the hex-splitting parsers of chains/ethereum (selector missing, arguments cut short, contract
+// creation, not RLP at all), and finality reports with indices outside the witness list.
+func (g *Gen) ethCrashTable() []HostileInput {
+	ethLoadABIs()
+	var out []HostileInput
+	a := g.acct()
+	ext := func(to *common.Address, value int64, data []byte) []byte {
+		var tx *types.Transaction
+		if to == nil {
+			tx = types.NewContractCreation(1, big.NewInt(value), 100000, big.NewInt(1), data)
+		} else {
+			tx = types.NewTransaction(1, *to, big.NewInt(value), 100000, big.NewInt(1), data)
+		}
+		signed, err := types.SignTx(tx, types.NewEIP155Signer(big.NewInt(1)), ethUserKey(g.W.P.Seed, 0))
+		if err != nil {
+			panic(err)
+		}
+		raw, err := rlp.EncodeToBytes(signed)
+		if err != nil {
+			panic(err)
+		}
+		return raw
+	}
+	lockSel, _ := ethABIs.lr.Pack("lock")
+	redeemSel, _ := ethABIs.lr.Pack("redeem", big.NewInt(5))
+	transfer20, _ := ethABIs.erc20.Pack("transfer", ethERCAddr, big.NewInt(5))
+	redeem20, _ := ethABIs.lrerc.Pack("redeem", big.NewInt(5), ethTokenAddr)
+	transfer20wrong, _ := ethABIs.erc20.Pack("transfer", ethOtherAddr, big.NewInt(5))
+	payloads := []struct {
+		n string
+		b []byte
+	}{
+		{"valid-lock", ext(&ethContractAddr, 7, lockSel)},
+		{"contract-creation", ext(nil, 7, lockSel)},
+		{"no-call-data", ext(&ethContractAddr, 7, nil)},
+		{"selector-only-redeem", ext(&ethContractAddr, 0, redeemSel[:4])},
+		{"redeem-args-cut", ext(&ethContractAddr, 0, redeemSel[:20])},
+		{"redeem-full", ext(&ethContractAddr, 10, redeemSel)},
+		{"erc20-transfer-selector-only", ext(&ethTokenAddr, 0, transfer20[:4])},
+		{"erc20-transfer-args-cut", ext(&ethTokenAddr, 0, transfer20[:40])},
+		{"erc20-transfer-full", ext(&ethTokenAddr, 0, transfer20)},
+		{"erc20-transfer-to-other-contract", ext(&ethOtherAddr, 0, transfer20)},
+		{"erc20-transfer-wrong-receiver", ext(&ethTokenAddr, 0, transfer20wrong)},
+		{"erc20-redeem-selector-only", ext(&ethERCAddr, 0, redeem20[:4])},
+		{"erc20-redeem-args-cut", ext(&ethERCAddr, 0, redeem20[:50])},
+		{"erc20-redeem-full", ext(&ethERCAddr, 0, redeem20)},
+		{"not-rlp", []byte("this is not an ethereum transaction")},
+		{"empty", nil},
+		{"rlp-empty-list", []byte{0xc0}},
+	}
+	for _, p := range payloads {
+		out = append(out, HostileInput{"ETH_LOCK " + p.n, g.mk("ETH_LOCK", "crash-table", &aeth.Lock{Locker: a.Addr, ETHTxn: p.b}, a).Bytes})
+		out = append(out, HostileInput{"ETH_REDEEM " + p.n, g.mk("ETH_REDEEM", "crash-table", &aeth.Redeem{Owner: a.Addr, To: ethContractAddr, ETHTxn: p.b}, a).Bytes})
+		out = append(out, HostileInput{"ERC20_LOCK " + p.n, g.mk("ERC20_LOCK", "crash-table", &aeth.ERC20Lock{Locker: a.Addr, ETHTxn: p.b}, a).Bytes})
+		out = append(out, HostileInput{"ERC20_REDEEM " + p.n, g.mk("ERC20_REDEEM", "crash-table", &aeth.ERC20Redeem{Owner: a.Addr, To: ethERCAddr, ETHTxn: p.b}, a).Bytes})
+	}
+	// reports on the tracker of the valid lock above, by a witness, with hostile vote indices
+	ws := g.ethWitnesses()
+	name := common.BytesToHash(payloads[0].b)
+	for _, idx := range []int64{-1, -9223372036854775808, 2, 1000000, 9223372036854775807, 0} {
+		if len(ws) == 0 {
+			break
+		}
+		msg := &aeth.ReportFinality{TrackerName: name, Locker: a.Addr, ValidatorAddress: ws[0].Key.Addr, VoteIndex: idx, Success: true}
+		out = append(out, HostileInput{fmt.Sprintf("ETH_REPORT vote-index %d", idx), g.mk("ETH_REPORT", "crash-table", msg, ws[0].Key).Bytes})
+	}
+	msg := &aeth.ReportFinality{TrackerName: common.Hash{}, Locker: nil, ValidatorAddress: nil, VoteIndex: 0, Success: false}
+	out = append(out, HostileInput{"ETH_REPORT empty", g.mk("ETH_REPORT", "crash-table", msg, a).Bytes})
+	return out
+}
+
+// olvmCrashTable: correctly signed OLVM transactions whose code is aimed at the interpreter and
+// the state adapter: every opcode once as the first instruction of a creation, a few known
+// troublemakers (BASEFEE, self destruct, deep recursion, huge memory), and random byte code.
+func olvmCrashTable(ow *OlvmWorld, r *rng.R) []HostileInput {
+	var out []HostileInput
+	from := ow.Eth[0]
+	nonce := uint64(0)
+	price := big.NewInt(10000000000)
+	add := func(label string, to *keys.Address, value int64, data []byte, gas int64) {
+		out = append(out, HostileInput{"OLVM " + label, ow.OlvmTx(from, to, nonce, big.NewInt(value), data, gas, price, OlvmTweak{})})
+		nonce++
+	}
+	for op := 0; op < 256; op++ {
+		// the opcode with a few zero words on the stack where it needs arguments
+		code := []byte{0x5f, 0x5f, 0x5f, 0x5f, 0x5f, 0x5f, 0x5f, byte(op), 0x00}
+		if op >= 0x60 && op <= 0x7f {
+			code = append([]byte{byte(op)}, make([]byte, op-0x5f)...)
+		}
+		add(fmt.Sprintf("create opcode-%02x", op), nil, 0, code, 200000)
+		// PUSH0 is not in this fork: the same with PUSH1 0
+		code2 := []byte{0x60, 0, 0x60, 0, 0x60, 0, 0x60, 0, 0x60, 0, 0x60, 0, 0x60, 0, byte(op), 0x00}
+		add(fmt.Sprintf("create push-args opcode-%02x", op), nil, 1, code2, 200000)
+	}
+	self := keys.Address(from.Addr)
+	add("create selfdestruct-to-self", nil, 5, []byte{0x30, 0xff}, 100000)
+	add("create selfdestruct-to-sender", nil, 5, []byte{0x33, 0xff}, 100000)
+	add("create huge-memory", nil, 0, []byte{0x7f, 0xff, 0xff, 0xff, 0xff, 0xff, 0xff, 0xff, 0xff, 0xff, 0xff, 0xff, 0xff, 0xff, 0xff, 0xff, 0xff, 0xff, 0xff, 0xff, 0xff, 0xff, 0xff, 0xff, 0xff, 0xff, 0xff, 0xff, 0xff, 0xff, 0xff, 0xff, 0xff, 0x51}, 300000)
+	add("create returns-24577-bytes", nil, 0, []byte{0x61, 0x60, 0x01, 0x60, 0x00, 0xf3}, 8000000)
+	add("create returns-ef", nil, 0, []byte{0x60, 0xef, 0x60, 0x00, 0x53, 0x60, 0x01, 0x60, 0x00, 0xf3}, 200000)
+	add("create returns-tombstone-code", nil, 0, []byte{0x62, 0xe2, 0x9b, 0xbc, 0x60, 0x00, 0x52, 0x60, 0x03, 0x60, 0x1d, 0xf3}, 200000)
+	add("create recursive-create", nil, 0, []byte{0x38, 0x60, 0x00, 0x60, 0x00, 0x39, 0x38, 0x60, 0x00, 0x60, 0x00, 0xf0, 0x00}, 3000000)
+	add("call to-self with-value", &self, 3, nil, 30000)
+	add("call precompile-9 junk", addrPtr(9), 0, r.Bytes(213), 300000)
+	for i := 1; i <= 9; i++ {
+		add(fmt.Sprintf("call precompile-%d empty", i), addrPtr(byte(i)), 1, nil, 100000)
+		add(fmt.Sprintf("call precompile-%d random", i), addrPtr(byte(i)), 0, r.Bytes(1+r.Intn(300)), 300000)
+	}
+	for i := 0; i < 60; i++ {
+		add(fmt.Sprintf("create random-code-%d", i), nil, int64(r.Intn(3)), r.Bytes(1+r.Intn(60)), 400000)
+	}
+	return out
+}
+
+func addrPtr(last byte) *keys.Address {
+	a := make(keys.Address, 20)
+	a[19] = last
+	return &a
 }
